@@ -48,11 +48,34 @@ theorem c17_locked_plus_unlocked_eq_total (g : GenCfg) (hg : GenBooksValid g) (h
     · simp [Query.supplyOf, hd]
     · simp [Query.supplyOf, hd, hq, Query.coinSub?, Query.supplyCoin, ha.books.totL, hne]
 
+/-- **What is subtracted is what is really locked.**  In every state of every run the figure the supply queries subtract —
+the stored total — equals the sum of the per-account locked records and the balance of the enterprise escrow account:
+`SupplyOf(native)` = bank supply − Σ locked records = bank supply − escrow balance. -/
+theorem c17_subtracted_amount_is_really_locked (g : GenCfg) (hg : GenBooksValid g) (hb : Balanced (initState g).bank) (s : State)
+    (h : FineReach g (BooksQ g.ent.denom) s) (hq : s.ent.params.denom = g.ent.denom) (hd : g.ent.denom ≠ "") :
+    s.ent.totalLocked.amt = sumF coinAmt s.ent.locked ∧
+    s.ent.totalLocked.amt = (s.bank.balOf Ment g.ent.denom : Int) ∧
+    Query.supplyOf s g.ent.denom =
+      some { denom := g.ent.denom, amt := (s.bank.supplyOf g.ent.denom : Int) - sumF coinAmt s.ent.locked } := by
+  have ha := entAll_reachable g hg s h
+  obtain ⟨_, _, u, hu, hud, _, hsum, hsup⟩ := c17_locked_plus_unlocked_eq_total g hg hb s h hq
+  have hesc := ha.books.escrow g.ent.denom
+  simp only [if_true] at hesc
+  refine ⟨ha.books.sumL.symm, hesc.symm, ?_⟩
+  rw [hsup, if_neg hd, ha.books.sumL]
+  congr 1
+  cases u with
+  | mk ud ua =>
+    simp only at hud hsum
+    subst hud
+    congr 1
+    omega
+
 /-- **TotalSupply listing.**  Paging through the total-supply listing by key returns the bank's supply
 entries, each denomination exactly once; the locked eFUND is removed from the enterprise denomination only
 (the transformation `Query.totalSupply` applies to a page touches no other coin). -/
 theorem c17_total_supply_pages (b : Bank) (hb : BankInv b) (hinj : ∀ x ∈ b.supply, ∀ y ∈ b.supply, Query.denomBytes x.1 = Query.denomBytes y.1 → x.1 = y.1)
-    (hne : ∀ x ∈ b.supply, Query.denomBytes x.1 ≠ []) (L : Nat) (hL : 1 ≤ L) (hL' : L < two64) :
+    (hne : ∀ x ∈ b.supply, Query.denomBytes x.1 ≠ []) (L : Nat) (hL : 1 ≤ L) (hL' : L + 1 < two64) :
     ∃ pages, walkKeys (Query.supplyStore b) (fun _ _ => some true) L ((Query.supplyStore b).length + 2) [] = some pages ∧
       pages.Perm ((b.supply.filter (fun e => e.2 ≠ 0)).map (fun e => ({ denom := e.1, amt := (e.2 : Int) } : Coin))) ∧
       (pages.map (·.denom)).Nodup := by
